@@ -270,7 +270,8 @@ fn run_trie(ctx: &Ctx) {
     }
     // the thorough tier uses the full DFA set only for vocabularies of <= 3 entries
     tuples.par_iter().for_each(|t| {
-        if ctx.over_budget() || ctx.has_violations() {
+        if ctx.elapsed() > ctx.budget_s * 0.6 || ctx.has_violations() {
+            ctx.cap_hit.store(true, Ordering::Relaxed);
             ctx.count("trie_vocabularies_skipped", 1);
             return;
         }
@@ -354,6 +355,8 @@ enum VOp {
 struct Model {
     size: usize,
     set: BTreeSet<u32>,
+    /// spare capacity in bits beyond `size` (as TokTrie::alloc_token_set allocates): 0 = none
+    spare: usize,
 }
 
 fn others(size: usize) -> Vec<BTreeSet<u32>> {
@@ -363,8 +366,8 @@ fn others(size: usize) -> Vec<BTreeSet<u32>> {
     vec![BTreeSet::new(), all, alt, last]
 }
 
-fn vob_of(size: usize, s: &BTreeSet<u32>) -> SimpleVob {
-    let mut v = SimpleVob::alloc(size);
+fn vob_of(size: usize, spare: usize, s: &BTreeSet<u32>) -> SimpleVob {
+    let mut v = if spare == 0 { SimpleVob::alloc(size) } else { SimpleVob::alloc_with_capacity(size, size + spare) };
     for t in s {
         v.allow_token(*t);
     }
@@ -406,25 +409,28 @@ fn apply(op: &VOp, v: &mut SimpleVob, m: &mut Model) -> bool {
         }
         VOp::Or(k) => {
             let o = &others(size)[*k];
-            v.or(&vob_of(size, o));
+            v.or(&vob_of(size, m.spare, o));
             m.set.extend(o.iter().copied());
         }
         VOp::And(k) => {
             let o = &others(size)[*k];
-            v.and(&vob_of(size, o));
+            v.and(&vob_of(size, m.spare, o));
             m.set = m.set.intersection(o).copied().collect();
         }
         VOp::Sub(k) => {
             let o = &others(size)[*k];
-            v.sub(&vob_of(size, o));
+            v.sub(&vob_of(size, m.spare, o));
             m.set = m.set.difference(o).copied().collect();
         }
         VOp::OrMinus(k1, k2) => {
             let os = others(size);
-            v.or_minus(&vob_of(size, &os[*k1]), &vob_of(size, &os[*k2]));
+            v.or_minus(&vob_of(size, m.spare, &os[*k1]), &vob_of(size, m.spare, &os[*k2]));
             m.set.extend(os[*k1].difference(&os[*k2]).copied());
         }
         VOp::Trim => {
+            if m.spare > 0 {
+                return false; // trimming / resizing a set with spare capacity is not modelled
+            }
             v.trim_trailing_zeros();
             let words_needed = m.set.iter().max().map_or(0, |x| *x as usize / 32 + 1);
             if words_needed < size.div_ceil(32) {
@@ -432,6 +438,9 @@ fn apply(op: &VOp, v: &mut SimpleVob, m: &mut Model) -> bool {
             }
         }
         VOp::Resize(s) => {
+            if m.spare > 0 {
+                return false;
+            }
             if s.div_ceil(32) < size.div_ceil(32) || *s < size {
                 return false;
             }
@@ -479,7 +488,7 @@ fn observe_vob(v: &SimpleVob, m: &Model) -> Result<(), String> {
         return Err("to_bin_string differs".into());
     }
     for (k, o) in others(m.size).iter().enumerate() {
-        let ov = vob_of(m.size, o);
+        let ov = vob_of(m.size, m.spare, o);
         let inter: Vec<u32> = m.set.intersection(o).copied().collect();
         if v.and_is_zero(&ov) != inter.is_empty() {
             return Err(format!("and_is_zero with other {k} differs"));
@@ -544,15 +553,18 @@ fn run_vob(ctx: &Ctx) {
     let sizes = [0usize, 1, 31, 32, 33, 63, 64, 65, 100];
     let evals = AtomicU64::new(0);
     // jobs: (size, first op); prefixes are shared by cloning (vob, model)
-    let jobs: Vec<(usize, VOp)> = sizes.iter().flat_map(|s| vob_ops(*s, true).into_iter().map(move |o| (*s, o))).collect();
-    jobs.par_iter().for_each(|(size, a)| {
+    // spare: 0 = SimpleVob::alloc(size); 1 / 33 = alloc_with_capacity(size, size + spare), the shape
+    // TokTrie::alloc_token_set() gives every engine mask (one spare bit for the fake token)
+    let jobs: Vec<(usize, usize, VOp)> = sizes.iter().flat_map(|s| [0usize, 1, 33].into_iter().flat_map(move |sp| vob_ops(*s, true).into_iter().map(move |o| (*s, sp, o)))).collect();
+    jobs.par_iter().for_each(|(size, spare, a)| {
+        let spare = *spare;
         if ctx.has_violations() {
             return;
         }
         let size = *size;
         let ops_rest = vob_ops(size, !ctx.quick());
         let fail = |seq: String, e: String| {
-            ctx.violation(Violation { check: "simplevob".into(), class: "token-set-vs-btreeset".into(), signature: format!("{seq}: {e}"), detail: json!({"kind": "simplevob", "size": size, "ops": seq, "what": e}) });
+            ctx.violation(Violation { check: "simplevob".into(), class: "token-set-vs-btreeset".into(), signature: format!("{seq}: {e}"), detail: json!({"kind": "simplevob", "size": size, "spare_capacity": spare, "ops": seq, "what": e}) });
         };
         let step = |op: &VOp, v: &SimpleVob, m: &Model| -> Result<Option<(SimpleVob, Model)>, String> {
             let mut v2 = v.clone();
@@ -564,8 +576,8 @@ fn run_vob(ctx: &Ctx) {
             observe_vob(&v2, &m2)?;
             Ok(Some((v2, m2)))
         };
-        let v0 = SimpleVob::alloc(size);
-        let m0 = Model { size, set: BTreeSet::new() };
+        let v0 = if spare == 0 { SimpleVob::alloc(size) } else { SimpleVob::alloc_with_capacity(size, size + spare) };
+        let m0 = Model { size, set: BTreeSet::new(), spare };
         let mut n = 0u64;
         let s1 = match step(a, &v0, &m0) {
             Ok(Some(x)) => x,
@@ -845,9 +857,10 @@ pub fn run(ctx: &Ctx) -> Coverage {
     let t0 = ctx.elapsed();
     run_adapters(ctx);
     ctx.note(format!("adapters done at {:.1}s", ctx.elapsed() - t0));
+    run_trie(ctx);
+    ctx.note(format!("trie done at {:.1}s", ctx.elapsed() - t0));
     run_vob(ctx);
     ctx.note(format!("simplevob done at {:.1}s", ctx.elapsed() - t0));
-    run_trie(ctx);
     ctx.outcome(ctx.get_count("trie_walks"));
     ctx.outcome(ctx.get_count("simplevob_sequences") ^ 0x55);
     ctx.outcome(ctx.get_count("adapter_roundtrips") ^ 0xAA);
@@ -856,6 +869,6 @@ pub fn run(ctx: &Ctx) -> Coverage {
         ctx.machinery_error("vacuous run");
     }
     Coverage::StateGraph {
-        rule: "(a) every vocabulary of <= 3 (thorough: 4) entries over the 15 strings of length <= 3 on {a,b} (duplicates, empty entries, prefixes), every filter subset, every partial DFA with <= 2 (thorough: 3) states over {a,b}, every start prefix of length <= 2: token/bytes round trip, token_id, has_extensions, greedy round trip, add_bias and has_valid_extensions vs per-token test; plus stress shapes (300-byte chain, 255-way fan-out, 1024-byte token, marker tokens); (b) every SimpleVob operation sequence of length <= 3 over 11 operation kinds with word-boundary arguments on sizes {0,1,31,32,33,63,64,65,100}, every observer compared with a BTreeSet model after every step; (c) byte-level and byte-fallback tokenizer.json descriptions and tiktoken rank tables built in memory: token bytes vs independent decoding, and tokenise/concatenate round trip for every byte string of length <= 4 over {a, b, space, C3, A9, 80}; states = vocabularies + op sequences, transitions = trie walks + set operations".into(),
+        rule: "(a) every vocabulary of <= 3 (thorough: 4) entries over the 15 strings of length <= 3 on {a,b} (duplicates, empty entries, prefixes), every filter subset, every partial DFA with <= 2 (thorough: 3) states over {a,b}, every start prefix of length <= 2: token/bytes round trip, token_id, has_extensions, greedy round trip, add_bias and has_valid_extensions vs per-token test; plus stress shapes (300-byte chain, 255-way fan-out, 1024-byte token, marker tokens); (b) every SimpleVob operation sequence of length <= 3 over 11 operation kinds with word-boundary arguments on sizes {0,1,31,32,33,63,64,65,100} x spare capacity {0, 1, 33} bits (alloc vs alloc_with_capacity as in alloc_token_set), every observer compared with a BTreeSet model after every step; (c) byte-level and byte-fallback tokenizer.json descriptions and tiktoken rank tables built in memory: token bytes vs independent decoding, and tokenise/concatenate round trip for every byte string of length <= 4 over {a, b, space, C3, A9, 80}; states = vocabularies + op sequences, transitions = trie walks + set operations".into(),
     }
 }
